@@ -657,4 +657,47 @@ theorem instrument_refines (host : Host W HS) (cfg : Cfg) (f : FunDef) (fuel : N
   rw [eI, eR]
   exact ⟨main.1, main.2.1⟩
 
+
+/-! ## the assumptions on the host, separated from the scoping facts -/
+
+/-- what the rewritten code assumes about ptera's runtime library and the builtins (host only) -/
+structure HostSpec (host : Host W HS) : Prop where
+  absent : host.glob nAbsent = some .absent
+  key : ∃ k, host.glob nKey = some k ∧ ∀ kind v w, host.call k [.str kind, v] w = (.ok (keyVal kind v), w)
+  suspend : ∃ s, host.glob nSuspend = some s ∧ ∀ a v w, host.call s [a, v] w = (.ok v, w)
+  resume : ∃ s, host.glob nResume = some s ∧ ∀ a v w, host.call s [a, v] w = (.ok v, w)
+  baseExc : ∃ b, host.glob "BaseException" = some b ∧ ∀ e, host.isinst e b = true
+  nameErr : ∃ n, host.glob nNameError = some n
+  frame : ∃ f, host.glob nFrame = some f
+  globals : ∃ g, host.glob nGlobals = some g
+    ∧ (∀ x w, host.getitem g (.str x) w = (.ok ((host.glob x).getD .absent), w))
+    ∧ (∀ x w, host.binop "In" (.str x) g w = (.ok (.bool (host.glob x).isSome), w))
+  truthyBool : ∀ b w, host.truthy (.bool b) w = (.ok b, w)
+
+theorem libSpec_of_host (host : Host W HS) (hh : HostSpec host) (cfg : Cfg) (f : FunDef) (fuel : Nat)
+    (hf : coreF f = true) : LibSpec (ctxOf host cfg f fuel) := by
+  simp only [coreF, Bool.and_eq_true, List.all_eq_true] at hf
+  obtain ⟨⟨⟨⟨⟨_, hau⟩, heu⟩, _⟩, _⟩, _⟩ := hf
+  refine ⟨?_, ?_, hh.absent, hh.key, hh.suspend, hh.resume, hh.baseExc, hh.nameErr, hh.frame, hh.globals,
+    hh.truthyBool⟩
+  · show scopeInstr f "#error" = true
+    simp [scopeInstr]
+  · intro x hx
+    show scopeInstr f x = false
+    have hnu : isUser x = false := by
+      simp only [List.mem_cons, List.mem_nil_iff, or_false] at hx
+      rcases hx with h | h | h | h | h | h | h | h <;> subst h <;> decide
+    have ha : (collect f).assigned.contains x = false := by
+      cases hc : (collect f).assigned.contains x
+      · rfl
+      · have := hau x (List.contains_iff_mem.1 hc); rw [hnu] at this; exact absurd this (by decide)
+    have he : (collect f).external.contains x = false := by
+      cases hc : (collect f).external.contains x
+      · rfl
+      · have := heu x (List.contains_iff_mem.1 hc); rw [hnu] at this; exact absurd this (by decide)
+    have h1 : (x == "#error") = false ∧ isTemp x = false := by
+      simp only [List.mem_cons, List.mem_nil_iff, or_false] at hx
+      rcases hx with h | h | h | h | h | h | h | h <;> subst h <;> decide
+    simp only [scopeInstr, ha, he, h1.1, h1.2, Bool.or_false]
+
 end Ptera.Sem
